@@ -1,5 +1,5 @@
 CONSTANTS MaxSyms = 5 Pairs = FALSE Emit = TRUE
 INIT Init
 NEXT Next
-INVARIANT Guards EmitRows HeaderRows
+INVARIANT Guards GuardsV EmitRows EmitRowsV HeaderRows
 CHECK_DEADLOCK FALSE
